@@ -100,6 +100,22 @@ def run_case(rs, ctx):
         tie = {"op": "warm_start", "features": feats, "q": 1.0}
         ops = [ops[0], tie] + [o for o in ops[1:] if o["op"] not in ("fit",)]
         ops = [o for i, o in enumerate(ops) if i < 2 or not (o["op"] == "remove_arm")]
+    if p == "tree" and not gen.has_probs(cfg) and rs.integers(2):
+        # a tree that is created by add_arm and trained by partial_fit on tie-rich data (two identical columns): which of the
+        # tied splits is taken depends on the tree's random_state, queries disagree on the two columns
+        new = [a for a in gen.LABELS[labels] if a not in cfg["arms"]][0]
+        n_new = int(rs.integers(4, 9))
+        col = [float(v) for v in rs.integers(0, 4, n_new)]
+        rows = [[c, c] for c in col]
+        rew = [1.0 if c >= 2 else 0.0 for c in col]
+        if len(set(rew)) == 1:
+            rew[0], col[0] = 1.0 - rew[0], 3.0 if rew[0] == 1.0 else 0.0
+            rows[0] = [col[0], col[0]]
+        q = [[0.0, 3.0], [3.0, 0.0], [1.0, 2.0], [2.0, 1.0]]
+        ops = [ops[0], {"op": "add_arm", "arm": new}, {"op": "partial_fit", "d": [new] * n_new, "r": rew, "X": rows},
+               {"op": "predict_expectations", "X": q}, {"op": "predict", "X": q}] + \
+            [o for o in ops[1:] if o["op"] in ("predict", "predict_expectations", "partial_fit")]
+        ops = [o for o in ops if not (o["op"] == "partial_fit" and any(a not in cfg["arms"] + [new] for a in o["d"]))]
     others = [gen_other(rs, cfg, same_kind=(j < 2)) for j in range(int(rs.integers(3, 6)))]
     wit = {"cfg": cfg, "ops": ops, "others": [{"cfg": o["cfg"], "ops": [gen.short(x) for x in o["ops"]],
                                                 "reuse_policy_objects": o["reuse_policy_objects"]} for o in others]}
